@@ -321,8 +321,11 @@ def run(rep):
     ) as sw:
         n = 600 if quick else 40000
         for it in range(n):
-            kind = it % 3
-            if kind == 0:
+            kind = it % 4
+            if kind == 3:
+                # (d) 2-d integer coordinates of either sign, {-2,..,1} x {-3,..,2}: the storage indexes by (possibly negative) integers
+                dim, vd, box, maxlen = 2, 1, list(itertools.product(range(-2, 2), range(-3, 3))), 4
+            elif kind == 0:
                 dim, vd, box, maxlen = 1, 2, [(k,) for k in range(4)], 4
             elif kind == 1:
                 dim, vd, box, maxlen = 3, 1, list(itertools.product((0, 1), repeat=3)), 4
